@@ -156,6 +156,41 @@ def limitLines (n : Nat) : Nat → List Line → List Line
       let r := limitStep n cnt l
       r.1 :: limitLines n r.2 ls
 
+/-! ### Several files through one processor list (`_generate_code` called once per file)
+
+The processor objects are shared by all files of a run.  Since the `fix:` commit that gave `LinePostProcessor` a
+`reset()` hook, `_generate_code` resets every line processor before the first line of each file. -/
+
+/-- `pipeLines` that also returns the processors' state after the last line. -/
+def pipeLinesSt (pps : List PP) : List Nat → List Line → List Line × List Nat
+  | ss, [] => ([], ss)
+  | ss, l :: ls =>
+      let r := pipeLine pps ss l
+      let r' := pipeLinesSt pps r.2 ls
+      (r.1 :: r'.1, r'.2)
+
+/-- `pp.reset()` for every processor. -/
+def resetAll (ss : List Nat) : List Nat := ss.map (fun _ => 0)
+
+/-- The text of one file and the processor state it leaves behind. -/
+def genFile (pps : List PP) (ss : List Nat) (chunks : List Str) : Str × List Nat :=
+  let r := pipeLinesSt pps ss (genLines chunks)
+  (write r.1, r.2)
+
+/-- A run: the files in order, state threaded through, reset at the start of each file. -/
+def genFiles (pps : List PP) : List Nat → List (List Str) → List Str
+  | _, [] => []
+  | ss, f :: fs =>
+      let r := genFile pps (resetAll ss) f
+      r.1 :: genFiles pps r.2 fs
+
+/-- The same loop before the `reset()` hook existed (kept to record the defect). -/
+def genFilesBeforeFix (pps : List PP) : List Nat → List (List Str) → List Str
+  | _, [] => []
+  | ss, f :: fs =>
+      let r := genFile pps ss f
+      r.1 :: genFilesBeforeFix pps r.2 fs
+
 /-! ### Vocabulary for stating the limiter contract -/
 
 /-- The elided line `("", "")`: writes nothing. -/
